@@ -11,6 +11,7 @@ Plus exhaustive schedules (E4) of 2-3 concurrent get_template_async -> render_as
 
 from __future__ import annotations
 
+import inspect
 import itertools
 import os
 from collections import OrderedDict
@@ -59,11 +60,18 @@ WHO = (None, "alice", "bob")
 
 
 def src_of(name: str, ver: int) -> str:
-    return f"{name} v{ver} {{{{ who }}}}"
+    return f"{name} v{ver} {{{{ who }}}}{{{{ m }}}}"
 
 
-def expect_out(name: str, ver: int, who: str | None) -> str:
-    return f"{name} v{ver} {who or ''}"
+_MATTER = [""]  # what {{ m }} renders: "M" while a configuration whose loader supplies front matter is explored
+
+
+def _lq(v: Any) -> str:
+    return "" if v is None else ("true" if v is True else "false" if v is False else str(v))
+
+
+def expect_out(name: str, ver: int, who: Any) -> str:
+    return f"{name} v{ver} {_lq(who)}{_MATTER[0]}"
 
 
 # ------------------------------------------------------------------ the real world
@@ -76,10 +84,12 @@ class World:
     def __init__(self, cfg: dict[str, Any], root: str | None = None) -> None:
         self.cfg = cfg
         self.names = cfg["names"]
-        self.versions: dict[str, int | None] = {n: 1 for n in self.names}
+        self.p2: dict[str, int | None] = {n: 1 for n in self.names}  # the ordinary store (second search path of fs2)
+        self.p1: dict[str, int | None] = {n: None for n in self.names}  # files shadowing it (first search path of fs2)
         self.last: dict[str, int] = {n: 1 for n in self.names}
         self.fail_next = False
         self.root = root
+        _MATTER[0] = "M" if cfg["loader"] == "matter" else ""
         kw = dict(auto_reload=cfg["auto_reload"], capacity=cfg["capacity"])
         if cfg["nsmode"] != "none":
             kw["namespace_key"] = "ns"
@@ -108,6 +118,38 @@ class World:
         elif kind == "choice":
             self.store = {n: src_of(n, 1) for n in self.names}
             self.loader = faulty(CachingChoiceLoader)([DictLoader({}), DictLoader(self.store)], **kw)
+        elif kind == "matter":
+            from liquid2.builtin.loaders.mixins import CachingLoaderMixin
+            from liquid2.loader import TemplateSource
+
+            self.store = {n: src_of(n, 1) for n in self.names}
+
+            class MatterLoader(CachingLoaderMixin, DictLoader):
+                """A caching loader whose sources come with front matter (TemplateSource.matter)."""
+
+                def __init__(self, templates: dict[str, str], **k: Any) -> None:
+                    super().__init__(**k)
+                    DictLoader.__init__(self, templates)
+
+                def get_source(self, env, template_name, **k):  # noqa: ANN001, ANN202
+                    src = DictLoader.get_source(self, env, template_name, **k)
+                    return TemplateSource(src.source, src.name, src.uptodate, {"m": "M"})
+
+                async def get_source_async(self, env, template_name, **k):  # noqa: ANN001, ANN202
+                    return self.get_source(env, template_name, **k)
+
+            self.loader = faulty(MatterLoader)(self.store, **kw)
+        elif kind == "fs2":
+            assert root is not None
+            self.root = root = os.path.join(root, "two")
+            d1, d2 = os.path.join(root, "p1"), os.path.join(root, "p2")
+            os.makedirs(d1, exist_ok=True)
+            os.makedirs(d2, exist_ok=True)
+            for n in self.names:
+                self._write(n, 1, "p2")
+                if os.path.exists(os.path.join(d1, n)):
+                    os.unlink(os.path.join(d1, n))
+            self.loader = faulty(CachingFileSystemLoader)([d1, d2], **kw)
         else:
             assert root is not None
             disk = _DISK.setdefault(root, {})
@@ -123,31 +165,56 @@ class World:
         self.env.loader = self.loader
         self.held: Any = None
 
-    def _write(self, name: str, ver: int) -> None:
-        p = os.path.join(self.root, name)  # type: ignore[arg-type]
+    @property
+    def versions(self) -> dict[str, int | None]:
+        """What an uncached loader serves now: the shadowing file if there is one, else the ordinary one."""
+        return {n: (self.p1[n] if self.p1[n] is not None else self.p2[n]) for n in self.names}
+
+    def _write(self, name: str, ver: int, sub: str | None = None, older: bool = False) -> None:
+        p = os.path.join(self.root, sub, name) if sub else os.path.join(self.root, name)  # type: ignore[arg-type]
         with open(p, "w") as fd:
             fd.write(src_of(name, ver))
-        os.utime(p, (1000 + ver, 1000 + ver))
-        _DISK.setdefault(self.root, {})[name] = ver  # type: ignore[arg-type]
+        # (older: the new content arrives with a modification time EARLIER than the one it replaces, as cp -p / rsync -t do)
+        t = 1000 - ver if older else 1000 + ver
+        os.utime(p, (t, t))
+        if not sub:
+            _DISK.setdefault(self.root, {})[name] = ver  # type: ignore[arg-type]
 
-    def modify(self, name: str) -> None:
+    def modify(self, name: str, older: bool = False) -> None:
         nv = self.last[name] + 1
         self.last[name] = nv
-        self.versions[name] = nv
+        self.p2[name] = nv
         if self.cfg["loader"] == "fs":
-            self._write(name, nv)
+            self._write(name, nv, older=older)
+        elif self.cfg["loader"] == "fs2":
+            self._write(name, nv, "p2", older=older)
         else:
             self.store[name] = src_of(name, nv)
 
     def delete(self, name: str) -> None:
-        if self.versions[name] is None:
+        if self.p2[name] is None:
             return
-        self.versions[name] = None
+        self.p2[name] = None
         if self.cfg["loader"] == "fs":
             os.unlink(os.path.join(self.root, name))  # type: ignore[arg-type]
             _DISK.setdefault(self.root, {})[name] = None  # type: ignore[arg-type]
+        elif self.cfg["loader"] == "fs2":
+            os.unlink(os.path.join(self.root, "p2", name))  # type: ignore[arg-type]
         else:
             del self.store[name]
+
+    def shadow(self, name: str) -> None:
+        """A file of the same name appears in the FIRST search path."""
+        nv = self.last[name] + 1
+        self.last[name] = nv
+        self.p1[name] = nv
+        self._write(name, nv, "p1")
+
+    def unshadow(self, name: str) -> None:
+        if self.p1[name] is None:
+            return
+        self.p1[name] = None
+        os.unlink(os.path.join(self.root, "p1", name))  # type: ignore[arg-type]
 
     # -- operations against the implementation
     def load_render(self, name: str, ns: str | None, who: str | None, mode: str, hold: bool = True) -> tuple:
@@ -238,7 +305,12 @@ class World:
                 out = t.render()
             except Exception as e:  # noqa: BLE001
                 out = type(e).__name__
-            items.append((key, out))
+            # how the entry was loaded is part of its future: a template loaded asynchronously carries an asynchronous
+            # freshness check, which the synchronous path has to treat differently
+            u = t.uptodate
+            f = getattr(u, "func", u)
+            how = "-" if u is None or self.cfg["loader"] not in ("fs", "fs2") else "a" if inspect.iscoroutinefunction(f) else "s"
+            items.append((key, out, how))
         return tuple(items)
 
 
@@ -249,35 +321,55 @@ class Model:
     def __init__(self, cfg: dict[str, Any]) -> None:
         self.cfg = cfg
         self.cache: OrderedDict[str, dict[str, Any]] = OrderedDict()
-        self.versions: dict[str, int | None] = {n: 1 for n in cfg["names"]}
+        self.p2: dict[str, int | None] = {n: 1 for n in cfg["names"]}
+        self.p1: dict[str, int | None] = {n: None for n in cfg["names"]}
+        self.older: dict[str, bool] = {n: False for n in cfg["names"]}
         self.last: dict[str, int] = {n: 1 for n in cfg["names"]}
         self.fail_next = False
         self.held: tuple | None = None
         self.dirty = False  # something other than plain loading has happened (non-triviality)
 
+    @property
+    def versions(self) -> dict[str, int | None]:
+        return {n: (self.p1[n] if self.p1[n] is not None else self.p2[n]) for n in self.cfg["names"]}
+
     def key(self, name: str, ns: str | None) -> str:
+        # (an unambiguous pair: neither names nor namespaces contain NUL)
         if self.cfg["nsmode"] != "none" and ns is not None:
-            return f"{ns}/{name}"
+            return f"{ns}\x00{name}"
         return name
 
     def has_freshness(self) -> bool:
-        return self.cfg["loader"] == "fs"
+        return self.cfg["loader"] in ("fs", "fs2")
 
-    def load(self, name: str, ns: str | None, who: str | None, hold: bool) -> tuple:
+    def bump(self, name: str, where: str, older: bool = False) -> None:
+        self.last[name] += 1
+        getattr(self, where)[name] = self.last[name]
+        # the direction the modification time moved is part of the state (it is what freshness checks look at)
+        self.older[name] = older
+        self.dirty = True
+
+    def load(self, name: str, ns: str | None, who: str | None, hold: bool, asynch: bool = False, via_include: bool = False) -> tuple:
+        # (a template loaded by an include tag is cached without globals of its own: it renders in the parent's context)
+        bound = None if via_include else who
         key = self.key(name, ns)
         cur = self.versions[name]
         entry = self.cache.get(key)
+        how = "a" if asynch else "s"
         if entry is not None:
             self.cache.move_to_end(key)
             stale = entry["ver"] != cur
-            if self.cfg["auto_reload"] and self.has_freshness() and stale:
+            # an entry loaded asynchronously carries an asynchronous freshness check; the synchronous path cannot
+            # evaluate it and looks the source up again (the uncached loader's answer, so still transparent)
+            unknown = entry["how"] == "a" and not asynch
+            if self.cfg["auto_reload"] and self.has_freshness() and (stale or unknown):
                 # the uncached loader's answer at this moment
                 if self.fail_next:
                     self.fail_next = False
                     return ("liquid", "TemplateNotFoundError")
                 if cur is None:
                     return ("liquid", "TemplateNotFoundError")
-                self.cache[key] = {"ver": cur, "who": who, "name": name}
+                self.cache[key] = {"ver": cur, "who": bound, "name": name, "how": how}
                 if hold:
                     self.held = (key, name, cur, who)
                 return ("ok", expect_out(name, cur, who))
@@ -293,15 +385,16 @@ class Model:
         if len(self.cache) >= self.cfg["capacity"]:
             self.cache.popitem(last=False)
             self.dirty = True
-        self.cache[key] = {"ver": cur, "who": who, "name": name}
+        self.cache[key] = {"ver": cur, "who": bound, "name": name, "how": how}
         if hold:
             self.held = (key, name, cur, who)
         return ("ok", expect_out(name, cur, who))
 
     def state(self) -> tuple:
         return (
-            tuple((k, v["ver"], v["who"]) for k, v in self.cache.items()),
-            tuple(sorted(self.versions.items(), key=lambda kv: kv[0])),
+            tuple((k, v["ver"], v["who"], v["how"] if self.has_freshness() else "-") for k, v in self.cache.items()),
+            tuple(sorted(self.p1.items(), key=lambda kv: kv[0])), tuple(sorted(self.p2.items(), key=lambda kv: kv[0])),
+            tuple(sorted(self.older.items(), key=lambda kv: kv[0])) if self.has_freshness() else (),
             self.fail_next,
             self.held,
         )
@@ -321,6 +414,12 @@ def configs(tier: str) -> list[dict[str, Any]]:
                     if tier == "quick" and loader == "choice" and nsmode != "none":
                         continue
                     out.append({"loader": loader, "capacity": cap, "auto_reload": ar, "nsmode": nsmode, "names": names})
+    # variants (each explores one more dimension on one small configuration)
+    out.append({"loader": "matter", "capacity": 2, "auto_reload": True, "nsmode": "none", "names": names[:2]})  # sources with front matter
+    out.append({"loader": "dict", "capacity": 2, "auto_reload": True, "nsmode": "none", "names": names[:2], "whos": (1, True, 1.0)})  # equal but different globals
+    out.append({"loader": "dict", "capacity": 2, "auto_reload": True, "nsmode": "kwarg", "names": ("n1", "y/n1"), "nss": (None, "x", "x/y")})  # slashes on both sides
+    out.append({"loader": "fs2", "capacity": 2, "auto_reload": True, "nsmode": "none", "names": names[:2]})  # two search paths, shadowing
+    out.append({"loader": "fs2", "capacity": 1, "auto_reload": False, "nsmode": "none", "names": names[:1]})
     return out
 
 
@@ -334,7 +433,10 @@ def alphabet_for(cfg: dict[str, Any], tier: str) -> list[tuple]:
         modes, nss = ("sync", "async"), (None, "x", "y")
     else:
         modes, nss = ("include", "include-async"), (None, "x", "y")
-    whos = WHO if tier != "quick" else (None, "alice")
+    whos = cfg.get("whos") or (WHO if tier != "quick" else (None, "alice"))
+    nss = cfg.get("nss") or nss
+    if cfg["loader"] in ("fs2", "matter"):
+        modes = ("sync", "async")  # (front matter belongs to a template rendered on its own, not to an included one)
     for n in names:
         for ns in nss:
             for who in whos:
@@ -343,6 +445,11 @@ def alphabet_for(cfg: dict[str, Any], tier: str) -> list[tuple]:
     for n in names:
         ops.append(("modify", n))
         ops.append(("delete", n))
+        if cfg["loader"] in ("fs", "fs2"):
+            ops.append(("modify_older", n))
+        if cfg["loader"] == "fs2":
+            ops.append(("shadow", n))
+            ops.append(("unshadow", n))
     ops.append(("fail_next",))
     if nsmode != "global":
         ops.append(("render_held",))
@@ -369,7 +476,7 @@ def replay_history(cfg: dict[str, Any], hist: tuple) -> tuple[Any, list[tuple[st
     """Replay `hist` on fresh objects in lock step with the model.
 
     Returns (canonical state key, problems of the LAST step, nontrivial)."""
-    world = World(cfg, _root() if cfg["loader"] == "fs" else None)
+    world = World(cfg, _root() if cfg["loader"] in ("fs", "fs2") else None)
     model = Model(cfg)
     problems: list[tuple[str, Any, Any]] = []
     callers: list[str | None] = []
@@ -381,21 +488,27 @@ def replay_history(cfg: dict[str, Any], hist: tuple) -> tuple[Any, list[tuple[st
             _, name, ns, who, mode = op
             hold = mode in ("sync", "async")
             callers.append(who)
-            want = model.load(name, ns, who, hold)
+            want = model.load(name, ns, who, hold, asynch=mode in ("async", "include-async"), via_include=mode.startswith("include"))
             world.fail_next = world.fail_next  # (flag is consumed inside the loader)
             got = world.load_render(name, ns, who, mode, hold=hold)
             if got != want:
                 probs.append((_classify_load(want, got, callers, mode), {"model": want}, {"impl": got}))
-        elif kind == "modify":
-            model.last[op[1]] += 1
-            model.versions[op[1]] = model.last[op[1]]
-            model.dirty = True
-            world.modify(op[1])
+        elif kind in ("modify", "modify_older"):
+            model.bump(op[1], "p2", older=kind == "modify_older")
+            world.modify(op[1], older=kind == "modify_older")
             assert world.versions == model.versions, (world.versions, model.versions)
         elif kind == "delete":
-            model.versions[op[1]] = None
+            model.p2[op[1]] = None
             model.dirty = True
             world.delete(op[1])
+        elif kind == "shadow":
+            model.bump(op[1], "p1")
+            world.shadow(op[1])
+            assert world.versions == model.versions, (world.versions, model.versions)
+        elif kind == "unshadow":
+            model.p1[op[1]] = None
+            model.dirty = True
+            world.unshadow(op[1])
         elif kind == "fail_next":
             model.fail_next = True
             model.dirty = True
@@ -420,11 +533,11 @@ def replay_history(cfg: dict[str, Any], hist: tuple) -> tuple[Any, list[tuple[st
             if status == "finished":
                 # the job ran to completion within j steps: it is an ordinary load
                 callers.append(who)
-                model.load(name, None, who, False)
+                model.load(name, None, who, False, asynch=True)
             else:
                 # allowed: cache unchanged, or the hit entry moved to most-recently-used
                 key = model.key(name, None)
-                fp_keys = [k for k, _ in world.fingerprint()]
+                fp_keys = [x[0] for x in world.fingerprint()]  # (cancel is only explored without namespaces: key == name)
                 keys_same = [k for k, _ in before]
                 keys_moved = [k for k in keys_same if k != key] + ([key] if key in keys_same else [])
                 if fp_keys == keys_moved and key in model.cache:
@@ -437,9 +550,11 @@ def replay_history(cfg: dict[str, Any], hist: tuple) -> tuple[Any, list[tuple[st
         fp = world.fingerprint()
         if len(world.loader.cache) > cfg["capacity"]:
             probs.append(("C14:cache-exceeds-capacity", cfg["capacity"], len(world.loader.cache)))
-        mkeys = list(model.cache.keys())
-        if [k for k, _ in fp] != mkeys and not probs:
-            probs.append(("C14:lru-order-or-contents-differ-from-model", {"model": mkeys}, {"impl": [k for k, _ in fp]}))
+        # the cache holds, oldest first, exactly the model's entries: compared by what each cached template renders
+        # (name, version, the globals of the caller that loaded it), which does not depend on how keys are spelled
+        mouts = [expect_out(v["name"], v["ver"], v["who"]) for v in model.cache.values()]
+        if [x[1] for x in fp] != mouts and not probs:
+            probs.append(("C14:lru-order-or-contents-differ-from-model", {"model": mouts}, {"impl": [x[1] for x in fp]}))
         problems = probs
     fp = world.fingerprint()
     key = h64([model.state(), fp, world.fail_next])
@@ -493,7 +608,7 @@ def check_schedule_set(cfg: dict[str, Any], jobs: tuple, res: ShardResult | None
     whos = [w for _n, _ns, w in jobs]
 
     def run(loop: VLoop) -> Any:
-        world = World(cfg, _root() if cfg["loader"] == "fs" else None)
+        world = World(cfg, _root() if cfg["loader"] in ("fs", "fs2") else None)
 
         async def job(n: str, ns: str | None, w: str | None) -> str:
             import asyncio
@@ -539,8 +654,9 @@ _STATE: dict[str, Any] = {}
 def plan(tier: str, seed: int):
     cfgs = configs(tier)
     depth = 4
-    shards: list[Any] = [("bfs", tier, i, depth) for i in range(len(cfgs))]
-    sched_cfgs = [c for c in cfgs if c["capacity"] == 2 and c["auto_reload"] and c["nsmode"] in ("none", "kwarg") and c["loader"] in ("dict", "fs")]
+    # (quick tier: the file-backed configurations, whose states also carry how each entry was loaded, go to depth 3)
+    shards: list[Any] = [("bfs", tier, i, 3 if tier == "quick" and c["loader"] in ("fs", "fs2") else depth) for i, c in enumerate(cfgs)]
+    sched_cfgs = [c for c in cfgs if c["capacity"] == 2 and c["auto_reload"] and c["nsmode"] in ("none", "kwarg") and c["loader"] in ("dict", "fs") and "nss" not in c and "whos" not in c]
     nsets = 0
     for ci, c in enumerate(cfgs):
         if c in sched_cfgs:
@@ -550,7 +666,7 @@ def plan(tier: str, seed: int):
     meta = {
         "space_size": len(cfgs) + nsets,
         "exhaustive": True,
-        "bounds": {"depth": depth, "configurations": len(cfgs), "schedule_sets": nsets, "names": len(cfgs[0]["names"])},
+        "bounds": {"depth": depth, "depth_file_backed_quick": 3, "configurations": len(cfgs), "schedule_sets": nsets, "names": len(cfgs[0]["names"])},
         "subspaces": {"bfs-configurations": len(cfgs), "schedule-sets": nsets},
     }
     return shards, meta
@@ -560,6 +676,7 @@ def run_shard(shard) -> ShardResult:
     res = ShardResult()
     kind, tier, ci = shard[0], shard[1], shard[2]
     cfg = configs(tier)[ci]
+    _MATTER[0] = "M" if cfg["loader"] == "matter" else ""
     res.cases += 1
     if kind == "bfs":
         depth = shard[3]
@@ -606,6 +723,10 @@ def replay(case: dict[str, Any]) -> list[dict[str, Any]]:
     res = ShardResult()
     cfg = dict(case["config"])
     cfg["names"] = tuple(cfg["names"])
+    for k in ("whos", "nss"):
+        if k in cfg:
+            cfg[k] = tuple(cfg[k])
+    _MATTER[0] = "M" if cfg["loader"] == "matter" else ""
     if case["kind"] == "bfs":
         hist = tuple(tuple(o) for o in case["history"])
         _k, probs, _n = replay_history(cfg, hist)
